@@ -125,6 +125,53 @@ def _astype(ex, st, args, kwargs, node):
     return args[0]
 
 
+@model('numpy.vstack', 'numpy.row_stack')
+def _vstack(ex, st, args, kwargs, node):
+    """assumed: vstack of k 1-D arrays of equal length n -> (k, n) with row i = argument i"""
+    v = args[0]
+    items = st.get(v).items if isinstance(v, Ref) else list(v)
+    rows = [arr(ex, st, x) for x in items]
+    if not rows or any(r is None or r.ndim != 1 for r in rows):
+        raise Unsupported('vstack of non 1-D arrays')
+    n = rows[0].shape[0]
+    for r in rows[1:]:
+        from .engine import _same
+        if not _same(r.shape[0], n):
+            ex.oblige('safe.shape', st, as_term(r.shape[0]) == as_term(n), node)
+
+    def el(ix, rows=rows):
+        ci = conc_int(ix[0])
+        if ci is not None:
+            return to_real(rows[ci].elem((ix[1],)))
+        r = to_real(rows[-1].elem((ix[1],)))
+        for j in range(len(rows) - 2, -1, -1):
+            r = z3.If(ix[0] == j, to_real(rows[j].elem((ix[1],))), r)
+        return r
+    return st.alloc(ex.c, Arr((len(rows), n), el, 'real'))
+
+
+@model('builtins.zip')
+def _zip(ex, st, args, kwargs, node):
+    seqs = []
+    for a in args:
+        lo, hi, elem = ex.iter_value(a, st, node)
+        chi = conc_int(hi)
+        if chi is None:
+            raise Unsupported('zip(...) as a value over a symbolic extent')
+        seqs.append([elem(k, st) for k in range(chi)])
+    n = min(len(s) for s in seqs) if seqs else 0
+    return st.alloc(ex.c, PyList([tuple(s[k] for s in seqs) for k in range(n)]))
+
+
+@model('builtins.enumerate')
+def _enumerate(ex, st, args, kwargs, node):
+    lo, hi, elem = ex.iter_value(args[0], st, node)
+    chi = conc_int(hi)
+    if chi is None:
+        raise Unsupported('enumerate(...) as a value over a symbolic extent')
+    return st.alloc(ex.c, PyList([(k, elem(k, st)) for k in range(chi)]))
+
+
 @model('numpy.linspace')
 def _linspace(ex, st, args, kwargs, node):
     lo, hi = args[0], args[1]
